@@ -1,8 +1,15 @@
 (* streams.ml — registry of correspondence streams.
    A stream generator calls [emit case expected_debug expected_release] for each case.
-   [case] is a space-separated token line starting with the stream name. *)
+   [case] is a space-separated token line starting with the stream name.
+   Sharding: the driver sets [shard]; case number [!idx] belongs to this process iff idx mod n = k.
+   [both] is lazy: the model is evaluated only for the cases of this shard. *)
 type emit = string -> string -> string -> unit
 type gen = seed:int -> n:int -> emit -> unit
 let table : (string, gen * string) Hashtbl.t = Hashtbl.create 64
 let register (name : string) ~(doc : string) (g : gen) = Hashtbl.replace table name (g, doc)
-let both (emit : emit) case (f : bool -> string) = emit case (f true) (f false)
+let idx = ref 0
+let shard = ref (0, 1)
+let mine () = let (k, n) = !shard in !idx mod n = k
+let skip () = incr idx
+let both (emit : emit) case (f : bool -> string) =
+  if mine () then emit case (f true) (f false) else skip ()
